@@ -163,6 +163,19 @@ Example C01_backends_agree_typed_arrays : exists M,
   run_vm 5000 M = VDone [50; 10; 91; 53; 44; 32; 54; 44; 32; 55; 93; 10; 53; 10; 54; 10; 55; 10]%N 11 /\
   run_nat RtoL 200 ex_arr = NDone [50; 10; 91; 53; 44; 32; 54; 44; 32; 55; 93; 10; 53; 10; 54; 10; 55; 10]%N 11.
 Proof. exact backends_agree_typed_arrays. Qed.
+(* ... and on string programs: a global string, string parameter and result, + / str_concat / str_length / str_equals /
+   str_contains / char_at / str_substring / int_to_string, all inside the common domain of the two engines *)
+Example C01_backends_agree_typed_strings : exists M,
+  wt ex_str = true /\ compile_program ex_str = Some M /\ small_program ex_str /\ fuel_small 200 /\ depth_ok M /\
+  se_program ex_str = true /\ cc_refuses ex_str = false /\
+  run_ref 200 ex_str = Done ex_str_out 119 /\ run_vm 5000 M = VDone ex_str_out 119 /\ run_nat RtoL 200 ex_str = NDone ex_str_out 119.
+Proof. exact backends_agree_typed_strings. Qed.
+Print Assumptions C01_backends_agree_typed_strings.
+(* OUTSIDE the common domain the theorems are silent: (char_at "abc" 3) is undefined in the reference (FStrDomain: the VM
+   answers -1, the native runtime 0, finding lang:char-at-out-of-range); the VM model prints what the real VM prints *)
+Example C01_char_at_outside_the_common_domain : exists M, compile_program ex_str_dom = Some M /\
+  run_ref 50 ex_str_dom = Faulted FStrDomain [] /\ run_vm 500 M = VDone [45; 49; 10]%N 0.
+Proof. exact ex_str_dom_runs. Qed.
 (* ... and an out-of-range access after "1" was printed *)
 Example C01_backends_agree_on_out_of_range_satisfiable : exists M,
   wt ex_oob = true /\ compile_program ex_oob = Some M /\ small_program ex_oob /\ fuel_small 100 /\
